@@ -979,3 +979,12 @@ def run(res, facts, tier):
     _run_c04_prev_surrogate(res, facts, tier)
     from . import c08_surrogate
     c08_surrogate.run_c04_rule(res, facts, tier)
+
+
+_run_c04_prev_declenc = run
+
+
+def run(res, facts, tier):
+    _run_c04_prev_declenc(res, facts, tier)
+    from . import c04_declenc
+    c04_declenc.run_rule(res, facts, tier)
